@@ -58,6 +58,7 @@ def _opts(c, e):
     if e >= 1 and (c['seed'] + e) % 3 == 0:       # a PARTIAL dictionary for a later epoch: the keys it omits take the documented DEFAULTS (not the first epoch's values)
         keep = list(th)[int(r.integers(len(th))):][:2]
         th = {k: th[k] for k in keep}
+    if e >= 1 and (c['seed'] + e) % 5 == 1: th = {}      # (no threshold of its own at all)
     return {'center_extrema': c['center'], 'burst_method': c['method'], 'threshold_kwargs': th}
 
 TH_DEFAULTS = {'amp_fraction_threshold': 0.0, 'amp_consistency_threshold': 0.5, 'period_consistency_threshold': 0.5, 'monotonicity_threshold': 0.8, 'min_n_cycles': 3,
@@ -137,6 +138,8 @@ def evaluate(ctx, cases):
                 d = dict(o0, threshold_kwargs=dict(o0['threshold_kwargs'])); kwv = [d] * c['n_ep']
             else:
                 kwv = [dict(_opts(c, e), threshold_kwargs=dict(_opts(c, e)['threshold_kwargs'])) for e in range(c['n_ep'])]
+                for e in range(1, c['n_ep']):      # an entry whose threshold dictionary is EMPTY is handed over without the key at all: the defaults apply to that epoch
+                    if not kwv[e]['threshold_kwargs'] and (c['seed'] + e) % 2 == 0: del kwv[e]['threshold_kwargs']
             import copy
             snap = copy.deepcopy(kwv)
             try:
